@@ -162,3 +162,188 @@ class C10Runner:
             f = payload.get("finding", {"claim": "accepted", "site": "replay", "detail": ""})
             rep.finding(f, payload)
         return rep.exit_code()
+
+
+# ----------------------------------------------------------------------------- C15
+
+def strip_year(text):
+    import re
+    return re.sub(r"// Copyright \d{4} ", "// Copyright YYYY ", text)
+
+
+def permute_keys(obj, rng):
+    """same description, different key order in every mapping"""
+    if isinstance(obj, dict):
+        items = list(obj.items())
+        rng.shuffle(items)
+        return {k: permute_keys(v, rng) for k, v in items}
+    if isinstance(obj, list):
+        return [permute_keys(v, rng) for v in obj]
+    return obj
+
+
+INPROC_SCRIPT = r'''
+import sys, json, warnings, logging
+warnings.filterwarnings("ignore"); logging.disable(logging.CRITICAL)
+sys.path.insert(0, "/verif/harness")
+import impl
+cfgs = json.load(open(sys.argv[1]))
+out = []
+for c in cfgs:
+    r = impl.run_floogen(c)
+    out.append([r.ok, r.pkg, r.top])
+json.dump(out, open(sys.argv[2], "w"))
+'''
+
+
+class C15Runner:
+    def explore(self, pid, tier, seed, rep, search_mode=False):
+        import glob
+        import lean
+        import svtok
+        rng = random.Random(repr((seed, pid, tier)))
+        cases = [("example:" + os.path.basename(f), impl.load_yaml(f))
+                 for f in sorted(glob.glob(os.path.join(REPO, "floogen", "examples", "*.yml")))]
+        ngen = 60 if tier == "thorough" else 8
+        if tier == "quick":
+            cases = cases[:3] + rng.sample(cases[3:], 3)
+        for i in range(ngen):
+            meta, cfg = gen_desc.gen_case(rng)
+            cases.append((f"gen:{seed}:{i}", cfg))
+        stats = collections.Counter()
+        samples = []
+        jobs = []
+        cwd2 = tempfile.mkdtemp(prefix="floocwd_")
+        for name, cfg in cases:
+            perm = permute_keys(cfg, rng)
+            jobs += [
+                (name, "full/seed0", dict(cfg=cfg, env_extra={"PYTHONHASHSEED": "0"})),
+                (name, "full/seed1/cwd2", dict(cfg=cfg, env_extra={"PYTHONHASHSEED": "1"}, cwd=cwd2)),
+                (name, "full/seedrandom/permuted", dict(cfg=perm, env_extra={"PYTHONHASHSEED": "random"})),
+                (name, "only-pkg", dict(cfg=cfg, extra_args=["--only-pkg"])),
+                (name, "only-top", dict(cfg=cfg, extra_args=["--only-top"])),
+                (name, "stdout", dict(cfg=cfg, outdir=False)),
+                (name, "stdout-only-pkg", dict(cfg=cfg, outdir=False, extra_args=["--only-pkg"])),
+                (name, "query", dict(cfg=cfg, outdir=False, extra_args=["-q",
+                    "[routing.num_endpoints, routing.num_id_bits, routing.num_x_bits, routing.num_y_bits, "
+                    "routing.num_route_bits, len(routing.sam.rules), len(endpoints), sum([e[\"num\"] for e in endpoints])]"])),
+            ]
+        with concurrent.futures.ThreadPoolExecutor(max_workers=14) as ex:
+            results = list(ex.map(lambda j: run_cli(**j[2]), jobs))
+        shutil.rmtree(cwd2, ignore_errors=True)
+        by = collections.defaultdict(dict)
+        for (name, kind, _), res in zip(jobs, results):
+            by[name][kind] = res
+        # in-process histories: each description after up to 3 others, in one fresh process
+        hist_in = tempfile.mktemp(suffix=".json")
+        hist_out = tempfile.mktemp(suffix=".json")
+        order = []
+        for name, cfg in cases:
+            others = [c for n, c in rng.sample(cases, min(3, len(cases))) if n != name]
+            order.append((name, len(others)))
+            json.dump(others + [cfg], open(hist_in, "w"))
+            r = subprocess.run([PY, "-c", INPROC_SCRIPT, hist_in, hist_out], capture_output=True, text=True, timeout=900)
+            if r.returncode != 0:
+                raise RuntimeError("in-process history run failed: " + r.stderr[-300:])
+            by[name]["history"] = json.load(open(hist_out))[-1]
+        for f in (hist_in, hist_out):
+            if os.path.exists(f):
+                os.remove(f)
+        drv = lean.Driver()
+        reported = set()
+
+        def fail(claim, name, detail, cfg):
+            stats[claim] += 1
+            if claim in reported:
+                return
+            reported.add(claim)
+            f = {"claim": claim, "site": name, "detail": detail}
+            rep.finding(f, {"property": pid, "finding": f, "cfg": cfg})
+
+        evaluations = 0
+        for name, cfg in cases:
+            r = by[name]
+            base = r["full/seed0"]
+            evaluations += len(r)
+            if base["rc"] != 0:
+                stats["rejected"] += 1
+                continue
+            files = {k: strip_year(v) for k, v in base["files"].items()}
+            pkgn = next((k for k in files if k.endswith("_pkg.sv")), None)
+            topn = next((k for k in files if not k.endswith("_pkg.sv")), None)
+            if pkgn is None or topn is None:
+                fail("files-missing", name, str(list(files)), cfg)
+                continue
+            stats["descriptions"] += 1
+            for kind in ("full/seed1/cwd2", "full/seedrandom/permuted"):
+                o = r[kind]
+                if o["rc"] != 0 or {k: strip_year(v) for k, v in o["files"].items()} != files:
+                    fail("nondeterministic:" + kind, name, f"rc={o['rc']} files differ from the PYTHONHASHSEED=0 run", cfg)
+            o = r["only-pkg"]
+            if o["rc"] != 0 or list(o["files"]) != [pkgn] or strip_year(o["files"][pkgn]) != files[pkgn]:
+                fail("mode-only-pkg", name, f"rc={o['rc']} files={list(o['files'])}", cfg)
+            o = r["only-top"]
+            if o["rc"] != 0 or list(o["files"]) != [topn] or strip_year(o["files"][topn]) != files[topn]:
+                fail("mode-only-top", name, f"rc={o['rc']} files={list(o['files'])}", cfg)
+            o = r["stdout"]
+            if o["rc"] != 0 or strip_year(o["stdout"]) != files[pkgn] + "\n" + files[topn] + "\n" or o["files"]:
+                fail("mode-stdout", name, "stdout is not package + newline + top + newline", cfg)
+            o = r["stdout-only-pkg"]
+            if o["rc"] != 0 or strip_year(o["stdout"]) != files[pkgn] + "\n":
+                fail("mode-stdout-only-pkg", name, "stdout is not the package + newline", cfg)
+            h = r["history"]
+            if not h[0] or strip_year(h[1]) != files[pkgn] or strip_year(h[2]) != files[topn]:
+                fail("history-dependent", name, "output after other descriptions in the same process differs", cfg)
+            # query vs what the files embody
+            q = r["query"]
+            ptoks, _ = svtok.tokenize(base["files"][pkgn])
+            ttoks, _ = svtok.tokenize(base["files"][topn])
+            emb = drv.call({"cmd": "embodied", "pkg": ptoks})
+            try:
+                qv = eval(q["stdout"].strip().replace("None", "None"), {"__builtins__": {}}, {})  # a list literal
+            except Exception:  # pylint: disable=broad-except
+                qv = None
+            if q["rc"] != 0 or not isinstance(qv, list):
+                fail("query-failed", name, f"rc={q['rc']} out={q['stdout'][:100]}", cfg)
+            else:
+                algo = cfg["routing"]["route_algo"]
+                n_inst = gen_desc.num_instances(cfg)
+                checks = [("num_endpoints", qv[0], emb["num_endpoints"]), ("sam_rules", qv[5], emb["sam_rules"]),
+                          ("len(endpoints)", qv[6], len(cfg["endpoints"])), ("sum(num)", qv[7], n_inst),
+                          ("num_endpoints=instances", qv[0], n_inst)]
+                if algo in ("ID", "SRC"):
+                    checks.append(("id_bits", qv[1], emb["id_bits"] if qv[1] != 0 else qv[1]))
+                if algo == "XY":
+                    checks += [("x_bits", qv[2], emb["x_bits"] if qv[2] != 0 else qv[2]),
+                               ("y_bits", qv[3], emb["y_bits"] if qv[3] != 0 else qv[3])]
+                if algo == "SRC":
+                    checks.append(("route_bits", qv[4], emb["route_bits"]))
+                for nm, a, b in checks:
+                    if a != b:
+                        fail("query-differs", name, f"query {nm} = {a}, emitted files embody {b}", cfg)
+            # the Lean model produces the same tokens
+            m = drv.call({"cmd": "check", "desc": cfg, "pkg": ptoks, "top": ttoks, "props": [], "model": True, "slice": "all"})
+            if "error" in m or m["model"].get("status") != "ok" or not m["model"].get("fullEqual"):
+                stats["model-mismatch"] += 1
+            if len(samples) < 3:
+                samples.append({"case": name, "runs": sorted(r.keys()), "query": qv, "package_bytes": len(files[pkgn])})
+        drv.close()
+        if stats["model-mismatch"] and not rep.violations:
+            rep.unproven({"correspondence": "Lean model and command-line output differ"}, {"property": pid})
+        return {"evaluations": evaluations, "distinct_nontrivial": stats["descriptions"],
+                "rule": "shipped examples + generated descriptions x {PYTHONHASHSEED 0/1/random, two working directories, "
+                        "permuted mapping keys, in-process history of <=3 other descriptions} x {full, --only-pkg, --only-top, "
+                        "stdout, stdout --only-pkg} + one query; byte comparison with the copyright year masked; "
+                        "non-trivial = accepted description whose full run wrote both files",
+                "samples": samples, "status_counts": dict(stats), "traces_validated_against_impl": evaluations,
+                "disagreements_checked": stats["model-mismatch"]}
+
+    def replay(self, pid, payload, rep):
+        cfg = payload["cfg"]
+        a = run_cli(cfg, env_extra={"PYTHONHASHSEED": "0"})
+        b = run_cli(cfg, env_extra={"PYTHONHASHSEED": "1"})
+        same = {k: strip_year(v) for k, v in a["files"].items()} == {k: strip_year(v) for k, v in b["files"].items()}
+        print("identical across hash seeds:", same, "rc", a["rc"], b["rc"])
+        if not same:
+            rep.finding(payload["finding"], payload)
+        return rep.exit_code()
